@@ -12,28 +12,54 @@ pub fn lal(a: &Alt) -> String {
     format!("parser/src/python.lalrpop:{}", a.line)
 }
 
-/// A name for an alternative that survives reordering, merging and splitting of its siblings: the nonterminal plus
-/// the nonterminals the alternative is made of (terminals, captures, bindings and repetition marks left out), with an
-/// ordinal only when two alternatives of the nonterminal have the same make-up.
+thread_local! {
+    /// nonterminals of the current grammar that the reviewed grammar does not have: name -> the nonterminal names
+    /// their alternatives are made of (set by tables::load_grammar; used to look through new helper nonterminals)
+    pub static NEW_HELPERS: std::cell::RefCell<BTreeMap<String, Vec<String>>> = std::cell::RefCell::new(BTreeMap::new());
+}
+
+/// A name for an alternative that survives reordering, merging and splitting of its siblings, renaming of macro
+/// parameters and the introduction of helper nonterminals: the nonterminal plus the (reviewed) nonterminals the
+/// alternative is made of — terminals, captures, bindings, repetition marks and list macros left out, macro parameters
+/// written `P`, un-reviewed helper nonterminals replaced by what they are made of — with an ordinal only when two
+/// alternatives of the nonterminal have the same make-up.
 pub fn alt_key(d: &NtDef, a: &Alt) -> String {
-    fn sig(a: &Alt) -> String {
-        fn names(s: &grammar::Sym, out: &mut Vec<String>) {
+    fn sig(d: &NtDef, a: &Alt) -> String {
+        fn names(s: &grammar::Sym, params: &[String], out: &mut Vec<String>, depth: usize) {
+            let push_name = |n: &String, out: &mut Vec<String>| {
+                if params.contains(n) {
+                    out.push("P".to_string());
+                    return;
+                }
+                let inner: Option<Vec<String>> = NEW_HELPERS.with(|h| h.borrow().get(n).cloned());
+                match inner {
+                    Some(v) if depth < 3 => {
+                        for x in v {
+                            if x != *n && !out.contains(&x) {
+                                out.push(x);
+                            }
+                        }
+                    }
+                    _ => out.push(n.clone()),
+                }
+            };
             match &s.kind {
-                SymKind::Name(n) => out.push(n.clone()),
+                SymKind::Name(n) => push_name(n, out),
                 SymKind::Macro(n, args) => {
                     // list macros are named by what they list
                     if matches!(n.as_str(), "OneOrMore" | "TwoOrMore" | "Comma") {
-                        out.push(format!("{}:", n));
+                        let mut inner = vec![];
                         for x in args {
-                            names(x, out);
+                            names(x, params, &mut inner, depth);
                         }
+                        out.extend(inner.into_iter().map(|x| format!("{}*", x.trim_end_matches('*'))));
                     } else {
-                        out.push(n.clone());
+                        push_name(n, out);
                     }
                 }
                 SymKind::Group(v) => {
                     for x in v {
-                        names(x, out);
+                        names(x, params, out, depth);
                     }
                 }
                 _ => {}
@@ -41,13 +67,13 @@ pub fn alt_key(d: &NtDef, a: &Alt) -> String {
         }
         let mut v = vec![];
         for s in &a.syms {
-            names(s, &mut v);
+            names(s, &d.params, &mut v, 0);
         }
-        let cond = a.cond.as_ref().map(|(p, eq, lit)| format!("|{}{}{}", p, if *eq { "==" } else { "!=" }, lit.trim_matches('"'))).unwrap_or_default();
+        let cond = a.cond.as_ref().map(|(p, eq, lit)| format!("|{}{}", if *eq { "==" } else { "!=" }, lit.trim_matches('"')).replace(p.as_str(), "")).unwrap_or_default();
         format!("{}{}", v.join(","), cond)
     }
-    let me = sig(a);
-    let same: Vec<usize> = d.alts.iter().filter(|x| sig(x) == me).map(|x| x.index).collect();
+    let me = sig(d, a);
+    let same: Vec<usize> = d.alts.iter().filter(|x| sig(d, x) == me).map(|x| x.index).collect();
     if same.len() <= 1 {
         format!("{}[{}]", d.name, me)
     } else {
